@@ -43,6 +43,12 @@ CHECKS.update({
 })
 ENGINES['xmap-geom'] = ('harness/drivers/xmapgeom.py', 'XMapGeom.tla + MC_XMapGeom.tla + Trace_XMapGeom.tla: exhaustive lattice cases with exact expected values replayed on ExchangeMap; random float references as traces')
 
+CHECKS['C12'] = ('groview',
+  'GroView.tla: finite-state model of the residue view (one-pass parse into templates + run-length list, offsets, shared cursor, two live iterators, index/negative index/slice with Python semantics) model-checked exhaustively: parse = maximal runs, every access returns the designated run whatever the history; real SystemGro access histories validated by TLC against Trace_GroView.tla',
+  'TLC explores every file of <= 4 (thorough 5) atoms over residue keys with equal names/different numbers and every reachable combination of iterator positions and last access (invariants ParseIsRuns, Tiling, AccessIsAbs, IterIsAbs, CursorInFile). On the implementation every such small file gets a systematic battery (all indices incl. out of range, 11 slices, two interleaved iterators) and random files up to 400 residues (with velocities, repeated/alternating kinds, colliding resid+name strings) get random histories of up to 200 accesses; for each access the file positions actually returned (decoded from unique atom data) and field-by-field equality with the written records are validated by TLC.',
+  'Trusts: TLC; synth.py independent .gro writer; positions decoded from atom numbers (< 100000 atoms).', 'DESIGN 3 C12')
+ENGINES['groview'] = ('harness/drivers/groview.py', 'GroView.tla + MC_GroView.tla + Trace_GroView.tla')
+
 PENDING_REASON = 'check not built yet in this round (build in progress; see DESIGN.md Appendix B)'
 
 
